@@ -503,6 +503,22 @@ def enum_cases(cls):
 
             yield {"family": "join_without_condition", "cls": cls, "src": src, "how": how}, thunk
 
+    # (h) a condition that pairs a column of a source NOT in the statement with a same-named column given without a table
+    #     (the two must not be taken for one when the condition's tables are collected)
+    for foreign in ("subquery_unaliased", "subquery_aliased", "table"):
+        for order in ("foreign_first", "tableless_first"):
+            def thunk(foreign=foreign, order=order):
+                other = {"subquery_unaliased": lambda: Q.from_("t_q").select("id", "b"), "subquery_aliased": lambda: Q.from_("t_q").select("id", "b").as_("fq"),
+                         "table": lambda: P.Table("t_x")}[foreign]()
+                crit = (other.id == P.Field("id")) if order == "foreign_first" else (P.Field("id") == other.id)
+                r = outcome(lambda: Q.from_(t).join(u).on(crit))
+                if r[0] == "ok" or r[1] != "JoinException":
+                    return [(mksig("join_collision", "missed" if r[0] == "ok" else "wrong_type:" + r[1], foreign), "a condition naming a %s that is not in the statement, next to a same-named column without a table (%s), gave %r" % (
+                        foreign, order, r[1] if r[0] == "raised" else _sql(r[1], cls)[:100]))]
+                return []
+
+            yield {"family": "join_collision", "cls": cls, "foreign": foreign, "order": order}, thunk
+
     for name, (first, second) in oneshots.items():
         def thunk(name=name, first=first, second=second):
             r1 = outcome(first)
